@@ -96,7 +96,7 @@ func FinishCase(prop *SimProp, w *World, known *KnownFindings) CaseResult {
 				res.Classes["downstream_of_known_finding"]++
 			}
 		}
-		if trig != "" && known.KnownTrigger(v.Property, trig) {
+		if trig != "" && (known.KnownTrigger(v.Property, trig) || known.KnownTrigger(prop.ID, trig)) {
 			res.Known = append(res.Known, v)
 			res.KnownTrig = append(res.KnownTrig, trig)
 			if v.Conn >= 0 {
@@ -187,9 +187,9 @@ func RunCase(rt *rapid.T, env *Env, prop *SimProp) {
 	if len(res.Violations) > 0 {
 		v := res.Violations[0]
 		env.Stats.Violations++
-		rf := &ReplayFile{Property: v.Property, Profile: p.Name, Config: cfg, Script: script, Message: v.Message, Class: v.Class}
+		rf := &ReplayFile{Property: prop.ID, Profile: p.Name, Config: cfg, Script: script, Message: v.Message, Class: v.Class}
 		path := env.WriteFail(rf)
-		rt.Fatalf("VIOLATION %s class=%s step=%d: %s\nreplay: %s\nscript: %s", v.Property, v.Class, v.Step, v.Message, path, text)
+		rt.Fatalf("VIOLATION %s (oracle %s) class=%s step=%d: %s\nreplay: %s\nscript: %s", prop.ID, v.Property, v.Class, v.Step, v.Message, path, text)
 	}
 }
 
@@ -458,6 +458,16 @@ func init() {
 
 // triggerData attributes violations of the data properties to known-finding histories.
 func triggerData(w *World, v Violation) string {
+	if v.Class == "cache_changed_by_malformed_message" || v.Class == "malformed_message_leaked" {
+		// partial-query-events: the events of a query answer are applied one by one
+		if v.Step >= 0 && v.Step < len(w.Script) {
+			op := w.Script[v.Step]
+			if op.K == "ans" && strings.HasPrefix(op.S, "_EVQ.") && strings.Count(op.P, `"event":`) >= 2 {
+				return "partial-query-events"
+			}
+		}
+		return ""
+	}
 	if v.Class == "get_without_subscription" {
 		return triggerRefetchAfterRelease(w, v)
 	}
@@ -476,12 +486,29 @@ func triggerData(w *World, v Violation) string {
 			return "reset-query-race"
 		}
 	}
+	if v.Class == "diverged" {
+		name, _ := splitRID(strings.Replace(v.RID, "{cid}", c.CID, -1))
+		for _, op := range w.Script {
+			if op.K == "ans" && strings.HasPrefix(op.S, "_EVQ.") && w.qevSubjects[op.S] == name && strings.Count(op.P, `"event":`) >= 2 && strings.HasPrefix(op.Key, "inject:") {
+				return "partial-query-events"
+			}
+		}
+	}
 	// failed-refetch-drops-events: a reset re-fetch of the resource was answered with
 	// an error while state events for it reached the gateway during the re-fetch
 	if v.Class == "diverged" {
 		name, _ := splitRID(strings.Replace(v.RID, "{cid}", c.CID, -1))
 		if failedRefetchDropsEvents(w, name) {
 			return "failed-refetch-drops-events"
+		}
+	}
+	// resend-of-held-resource: the gateway disposed and re-sent a resource that the
+	// client never stopped holding; a protocol-following client keeps its own copy
+	if v.Class == "diverged" {
+		for _, h := range c.Ref.Handovers {
+			if h.RID == v.RID && !h.Fresh && h.Differs {
+				return "resend-of-held-resource"
+			}
 		}
 	}
 	// unsend: the rid was handed to the client again by the response of a
@@ -896,33 +923,53 @@ func triggerC19(w *World, v Violation) string {
 }
 
 func failedRefetchDropsEvents(w *World, name string) bool {
-	type pend struct{ t, evs int }
-	gets := map[string]int{} // query -> number of get requests so far
-	open := map[int]*pend{}  // req -> pending re-fetch
+	// The gateway drops state events for a resource from the moment a matching
+	// system.reset is handled (the re-fetch may still be waiting in the reset
+	// throttle) until the re-fetch answer is processed.
+	resetting := false
+	evs := 0
+	gets := map[string]int{}
+	refetch := map[int]bool{}
 	for _, e := range w.Log() {
 		switch e.Kind {
-		case "mq_req":
-			if e.Subject == "get."+name {
-				gets[e.Query]++
-				if gets[e.Query] >= 2 {
-					open[e.Req] = &pend{t: e.T}
-				}
-			}
 		case "mq_ev":
-			if strings.HasPrefix(e.Subject, "event."+name+".") {
-				ev := e.Subject[len("event."+name+"."):]
-				if ev == "change" || ev == "add" || ev == "remove" {
-					for _, p := range open {
-						p.evs++
+			if e.Subject == "system.reset" {
+				var p struct {
+					Resources []string `json:"resources"`
+				}
+				if json.Unmarshal(e.Payload, &p) == nil {
+					for _, pat := range p.Resources {
+						if RefPatternMatch(pat, name) && !resetting {
+							resetting = true
+							evs = 0
+						}
 					}
 				}
 			}
+			if resetting && strings.HasPrefix(e.Subject, "event."+name+".") {
+				ev := e.Subject[len("event."+name+"."):]
+				if ev == "change" || ev == "add" || ev == "remove" || ev == "delete" {
+					evs++
+				}
+			}
+		case "mq_req":
+			if e.Subject == "get."+name {
+				gets[e.Query]++
+				if resetting {
+					refetch[e.Req] = true
+				}
+			}
 		case "mq_complete":
-			if p, ok := open[e.Req]; ok {
-				delete(open, e.Req)
+			if refetch[e.Req] {
 				failed := e.Err != "" || strings.Contains(string(e.Payload), `"error"`) || !strings.Contains(string(e.Payload), `"result"`)
-				if failed && p.evs > 0 {
+				if e.Step >= 0 && e.Step < len(w.Script) && w.Script[e.Step].K == "ans" && w.Script[e.Step].O == "raw" {
+					failed = true // a hand-made answer: the gateway may reject it
+				}
+				if failed && evs > 0 {
 					return true
+				}
+				if !failed {
+					resetting = false
 				}
 			}
 		}
